@@ -27,6 +27,8 @@ structure Ctx where
   ign : List Name
   /-- `mark d v`: the model of source domain `d` may differ from the target at `v` -/
   mark : Pop → Name → Prop
+  /-- the domains the context has a model for -/
+  dom : Pop → Prop := fun _ => True
 
 /-- the regular part of the current graph is an induced sub-graph of the user's graph -/
 structure RSub (G0 G : MG Name) : Prop where
@@ -62,6 +64,7 @@ structure T0Inv (ctx : Ctx) (q : Query) (G : MG Name) : Prop where
   closed : ∀ a ∈ regularNodes G, ∀ r ∈ ctx.G0.parents a, r ∈ regularNodes G
   joint : ∃ pop c, q.expr = .prob (some pop) c []
   marks : ∀ p ∈ q.graphs, ∀ v, ctx.mark p.1 v → v ∈ regularNodes p.2 → (tnode v, v) ∈ p.2.di
+  doms : ∀ p ∈ q.graphs, ctx.dom p.1
 
 /-- **the semantic invariant** -/
 structure SemInv (ctx : Ctx) (q : Query) (G : MG Name) : Prop where
@@ -335,7 +338,11 @@ theorem sound_line2 {ctx : Ctx} {Mb : Nat} {q q' : Query} {G : MG Name} {anc : L
       T0Inv ctx q' (G.subgraph (nsort anc)) := by
     intro ha hs hj
     have t0 := h.t0 (hact ▸ ha) (hsurr ▸ hs)
-    refine ⟨?_, ?_, hj, ?_⟩
+    refine ⟨?_, ?_, hj, ?_, ?_⟩
+    rotate_left 3
+    · intro p' hp'
+      obtain ⟨p, hp, a, _, rfl⟩ := hgraphs p' hp'
+      exact t0.doms p hp
     · intro p' hp'
       obtain ⟨p, hp, a, hpa, rfl⟩ := hgraphs p' hp'
       exact (t0.allsub p hp).subgraph (ancestorsInclusive_sub (hq.wf p hp) hpa)
